@@ -116,11 +116,12 @@ def cands : List String → Val → R (List (Option Val))
       | _ :: _ => cands ps ((dget p fs).getD (.doc []))
     | _ => .ok [none]         -- no field inside null or a scalar: the key is missing here
 
-/-- a key the model follows: non-empty components only -/
+/-- a key without empty components (`''`, `'a.'`, `'.b'`, `'a..b'` have one).  The matcher makes no
+    difference any more (`candsKey`); the update paths (MongoModel.Update) still follow only these. -/
 def keyOk (key : String) : Bool := (splitDots key).all (· ≠ "")
 
-/-- every dot-separated component of the key, the empty one included, is a field name
-    (`''` looks the field named `''` up, `'a.'` the field `''` inside `a`) -/
+/-- `iter_key_candidates(key, doc)`: every dot-separated component of the key, the empty one
+    included, is a field name (`''` is the field named `''`, `'a.'` the field `''` inside `a`). -/
 def candsKey (key : String) (d : Val) : R (List (Option Val)) :=
   cands (splitDots key) d
 
